@@ -163,8 +163,9 @@ func (p *Pass) getRelativePath(filePath string) string {
 	return filepath.Base(filePath)
 }
 
-func (p *Pass) function(to *compile.FunctionSpec, fn string, path string, service string) {
-	file := p.getRelativePath(path)
+func (p *Pass) function(to *compile.FunctionSpec, fn string, file string, service string) {
+	// file is already relative to the repository: making it relative a second
+	// time would fail and fall back to the bare file name.
 	if to == nil {
 		p.Report(Diagnostic{
 			FilePath: file,
